@@ -139,6 +139,9 @@ func applyRefine(n *Node, stmts []string) {
 			n.Mandatory = arg
 		case "presence":
 			n.Presence = arg
+			if arg == "" {
+				n.Presence = EmptyPresence
+			}
 		case "config":
 			n.Config = arg
 		case "min-elements":
